@@ -43,6 +43,8 @@ pub struct CliScn {
     pub tame: bool,
     pub args: Vec<String>,
     pub world: World,
+    /// the extra request settings the invocation's flags (and a named host) amount to
+    pub extra: Option<gamedig::protocols::types::ExtraRequestSettings>,
 }
 
 /// Derive the scenario of case `idx` from the tape (used identically by the
@@ -93,6 +95,50 @@ pub fn cli_scenario(idx: u64, t: &mut Tape) -> CliScn {
     if let Some(p) = port {
         args.extend(["--port".to_string(), p.to_string()]);
     }
+    // query options: one valid invocation in three carries some of them
+    let mut extra: Option<gamedig::protocols::types::ExtraRequestSettings> = None;
+    if invalid_kind.is_none() && game_id != "eco" && t.draw(CFG, 3) == 0 {
+        use gamedig::protocols::types::{ExtraRequestSettings, GatherToggle};
+        let mut e = ExtraRequestSettings::default();
+        let tog = |t: &mut Tape| *t.pick(CFG, &[("skip", GatherToggle::Skip), ("try", GatherToggle::Try), ("enforce", GatherToggle::Enforce)]);
+        if t.draw(CFG, 2) == 0 {
+            let (n, v) = tog(t);
+            e.gather_players = Some(v);
+            args.extend(["--gather-players".to_string(), n.to_string()]);
+        }
+        if t.draw(CFG, 2) == 0 {
+            let (n, v) = tog(t);
+            e.gather_rules = Some(v);
+            args.extend(["--gather-rules".to_string(), n.to_string()]);
+        }
+        if t.draw(CFG, 3) == 0 {
+            // (the simulated host runs the very game that is asked for: the check passes either way)
+            let v = t.draw(CFG, 2) == 0;
+            e.check_app_id = Some(v);
+            args.extend(["--check-app-id".to_string(), v.to_string()]);
+        }
+        if t.draw(CFG, 3) == 0 {
+            let v = *t.pick(CFG, &[-1i32, 0, 47, 760, i32::MAX]);
+            e.protocol_version = Some(v);
+            args.push(format!("--protocol-version={v}"));
+        }
+        if t.draw(CFG, 3) == 0 {
+            let v = *t.pick(CFG, &["play.example.org", "x", "mc.é.example"]);
+            e.hostname = Some(v.to_string());
+            args.extend(["--hostname".to_string(), v.to_string()]);
+        }
+        if args.iter().any(|a| a.starts_with("--gather") || a.starts_with("--check") || a.starts_with("--protocol") || a == "--hostname") {
+            extra = Some(e);
+        }
+    }
+    // a host given by name is passed on as the host name unless one was given explicitly
+    if args[4] == "localhost" {
+        let mut e = extra.take().unwrap_or_default();
+        if e.hostname.is_none() {
+            e.hostname = Some("localhost".to_string());
+        }
+        extra = Some(e);
+    }
     args.extend(["--format".to_string(), format.to_string(), "--output-mode".to_string(), mode.to_string()]);
     let invalid: Option<&'static str> = match invalid_kind {
         None => None,
@@ -142,7 +188,7 @@ pub fn cli_scenario(idx: u64, t: &mut Tape) -> CliScn {
             Some("port-out-of-range")
         }
     };
-    CliScn { game_id, format, mode, port, invalid, tame, args, world }
+    CliScn { game_id, format, mode, port, invalid, tame, args, world, extra }
 }
 
 /// Entry point for the clisim child.
@@ -204,9 +250,12 @@ impl Prop for C19 {
         // (naming the host makes the tool pass extra request settings that carry the name, which also
         // replace the definition's own gather settings: the reference call does the same)
         let named = scn.args.get(4).is_some_and(|a| a == "localhost");
-        let extra = named.then(|| gamedig::protocols::types::ExtraRequestSettings::default().set_hostname("localhost".to_string()));
+        let extra = scn.extra.clone();
         if named {
             out.probe("host_given_by_name");
+        }
+        if scn.args.iter().any(|a| a.starts_with("--gather") || a.starts_with("--check-app-id") || a.starts_with("--protocol-version") || a == "--hostname") {
+            out.probe("query_option_flags");
         }
         let call = Call { entry: Entry::Generic { game_id: scn.game_id, extra, level: 2 }, ip: SERVER_IP, port: scn.port, default_port: 0, timeout: None };
         let reference = run_call(scn.world, &call);
@@ -216,14 +265,18 @@ impl Prop for C19 {
         let _ = std::fs::create_dir_all(&dir);
         let file = dir.join(format!("scn-{}-{}.json", std::process::id(), idx));
         std::fs::write(&file, serde_json::to_vec(&ScenarioFile { idx, tape: tape_snapshot }).unwrap()).expect("scenario file");
+        let sends_file = dir.join(format!("sends-{}-{}.json", std::process::id(), idx));
         let child = Command::new(&exe)
             .args(&scn.args)
             .env("VERIF_CLI_SCENARIO", &file)
+            .env("VERIF_CLI_SENDS", &sends_file)
             .env("RUST_BACKTRACE", "0")
             .env("RUST_LIB_BACKTRACE", "0")
             .stdin(Stdio::null())
             .output();
         let _ = std::fs::remove_file(&file);
+        let cli_sends: Vec<(String, String)> = std::fs::read(&sends_file).ok().and_then(|b| serde_json::from_slice(&b).ok()).unwrap_or_default();
+        let _ = std::fs::remove_file(&sends_file);
         let o = match child {
             Ok(o) => o,
             Err(e) => {
@@ -259,6 +312,18 @@ impl Prop for C19 {
                 viol(format!("invalid/{kind}/no-message"), "an invalid invocation printed no error message", "a message on stderr".into(), format!("exit {code:?}"));
             }
         } else {
+            // the tool must put on the wire what the library call it stands for puts there: same requests
+            // to the same ports in the same order (the host name it was given included)
+            let want: Vec<(u16, String)> = reference.world.client_sends().into_iter().map(|(to, d)| (to.port(), d.iter().map(|b| format!("{b:02x}")).collect())).collect();
+            let got: Vec<(u16, String)> = cli_sends.iter().map(|(to, d)| (to.rsplit(':').next().and_then(|p| p.parse().ok()).unwrap_or(0), d.clone())).collect();
+            if !(want.is_empty() && got.is_empty()) {
+                probes.push("tool_transmissions_compared");
+            }
+            if want != got {
+                let i = want.iter().zip(got.iter()).position(|(a, b)| a != b).unwrap_or(want.len().min(got.len()));
+                let show = |v: &Vec<(u16, String)>| v.get(i).map_or("<nothing>".to_string(), |(p, d)| format!("port {p}: {}", &d[.. d.len().min(120)]));
+                viol(format!("{fam}|transmissions-differ"), &format!("transmission #{i} of the tool is not the one of the library call with the same game, address, port and options"), show(&want), show(&got));
+            }
             // the library's own verdict on this query
             match &reference.result {
                 Some(Ok(Resp::Generic { json: gj, original, nonfinite, .. })) => {
